@@ -53,6 +53,28 @@ def h_set(ctx, n):
     ctx.vc("caller's lists unchanged", True)
 
 
+@P.harness("set/input-forms", cases=[dict(form=f, n=k) for f in ("flat", "flat-dangling", "copy", "tuples") for k in (2, 3)],
+           functions=[IP + ".set", IP + ".__init__"], crosscheck=5, timeout=60)
+def h_forms(ctx, form, n):
+    """whatever input form is used -- x1, y1, x2, y2, ... as separate arguments (a dangling last value is dropped), two tuples, or
+    another Interpolation object -- the table holds exactly the n given pairs"""
+    xs, ys = table(ctx, n, ordered=True)
+    flat = [v for pr in zip(xs, ys) for v in pr]
+    if form == "flat":
+        ip = ctx.new(IP, *flat)
+    elif form == "flat-dangling":
+        ip = ctx.new(IP, *(flat + [ctx.real("extra", -10, 10)]))
+    elif form == "tuples":
+        ip = ctx.new(IP, tuple(xs), tuple(ys))
+    else:
+        src = ctx.new(IP, list(xs), list(ys))
+        ip = ctx.new(IP, src)
+    X, Y = ctx.field(ip, "_x"), ctx.field(ip, "_y")
+    ctx.vc("the table holds the n given pairs", len(X) == n and len(Y) == n)
+    if len(X) == n and len(Y) == n:
+        ctx.vc("in ascending order, each with its own ordinate", and_(*[and_(X[i] == xs[i], Y[i] == ys[i]) for i in range(n)]))
+
+
 @P.harness("set/too-few-points", crosscheck=0)
 def h_few(ctx):
     x = ctx.real("x", -10, 10)
